@@ -3,10 +3,12 @@ CONSTANTS
   Variant = "code"
   Level = 1
   MaxFaults = 1
+  Ext = 1
   Emit = TRUE
 INVARIANT TypeOK
 INVARIANT InvRunAgrees
 INVARIANT InvNoSilentOverwrite
+INVARIANT InvNoSilentOverwriteLocal
 INVARIANT InvAllOrNothingModuloKnown
 INVARIANT InvSavedReparsesModuloKnown
 INVARIANT InvCauseSound
